@@ -645,10 +645,12 @@ class PortProtocol(_DeviceIdFilterMixin, _BaseProtocol):
         # 0418|RQ must have wait_for_reply: if null log entry, reply has no idx
         # 1FC9|xx must have wait_for_reply and priority (timing critical)
 
-        if self._disable_qos is True or _DBG_DISABLE_QOS:
-            qos._wait_for_reply = False
-        elif self._disable_qos is None and cmd.code not in _CODES:
-            qos._wait_for_reply = False
+        if (self._disable_qos is True or _DBG_DISABLE_QOS) or (
+            self._disable_qos is None and cmd.code not in _CODES
+        ):  # NOTE: for this cmd only: don't mutate the caller's (or the default) QoS
+            qos = QosParams(
+                max_retries=qos.max_retries, timeout=qos.timeout, wait_for_reply=False
+            )
 
         # Should do this check before, or after previous block (of non-QoS sends)?
         # if not self._transport._is_wanted_addrs(cmd.src.id, cmd.dst.id, sending=True):
